@@ -308,6 +308,14 @@ def check_verdicts(b, family, values, df, col, w, eps_list=(0, 0.25, 0.5), tz=Fa
                                 'verifier %r' % (got,))
                 # incl. expressions not tied to the end (or the start) of the value: a rex constraint is
                 # satisfied by re.match, i.e. a match starting at the first character, not a full match
+                # a null-valued rex constraint is satisfied, like a null value of every other kind
+                w2 = dict(w, kind='rex', value=None)
+                b.case(('verdict', family, values, 'rex', 'None'))
+                with quiet():
+                    ok, got = b.guarded('C02.verify_rex.noraise',
+                                        lambda: ver.verify_rex_constraint('c', base.RexConstraint(None)), w2)
+                if ok:
+                    b.check('C02.verify_rex.verdict', bool(got) is True, w2, 'verifier %r for a null-valued constraint' % (got,))
                 for rx in (['^a+$'], ['^.*$'], ['^[a-z]*$', '^$'], ['^b$'], ['^a'], ['a'], ['b', '^é'], ['^.'], ['b$']):
                     con = base.RexConstraint(rx)
                     w2 = dict(w, kind='rex', value=rx)
